@@ -22,7 +22,8 @@ CHECKS = {
        "'is in use', except the release of stored packets dropped as oversize on resume, which that theorem's hypothesis excludes) and THE "
        "OWNERSHIP INVARIANT (C08_step_keeps_ownership, C08_ownership_invariant, by a walk through every function of the model): allocator "
        "well formed, identifiers of stored packets in use and pairwise distinct, every stored packet awaited in exactly the set of its kind, "
-       "every identifier awaited in at most one of the five sets — kept by EVERY call of a connection with a determined version, whatever "
+       "every identifier awaited in at most one of the five sets — kept by EVERY call (for an endpoint created with an undetermined version: "
+       "C08_fresh_ownership_invariant_any_version, the store staying empty until the first CONNECT determines the version), whatever "
        "the peer sends, under the application's side of the contract (identifiers handed to send() are held by the application; "
        "release_packet_id is not called for a stored packet's identifier; restore_packets is given packets of this version with identifiers "
        "awaited nowhere); it yields the representation invariant ALSO across the oversize drop on resume. PARTIAL (C08_partial): the "
@@ -55,7 +56,7 @@ CHECKS = {
        "awaited sets disjoint) is kept by every call and history, whatever the peer sends, under the application's side of the contract, "
        "and the matching PUBACK/PUBREC/PUBCOMP erases exactly that packet. PARTIAL (C06_partial): the v5.0 accepted-implies-sent-or-stored "
        "clause is decided by the monitor mon_c06 (ghost store from operations/events vs exported store and in-flight sets; clause 1 covers "
-       "PUBLISH and PUBREL) and the correspondence; the ownership theorems assume a determined protocol version.",
+       "PUBLISH and PUBREL) and the correspondence.",
   ref="DESIGN.md §3 C06",
   note=CONN_NOTE,
   technique="Coq per-step and history-invariant proofs + ghost-store monitor + differential correspondence"),
